@@ -4,6 +4,7 @@ its cells' tokens — `padCols` (the `ljust` loop) is an instance of `cellsText`
 column widths leave at least one blank after every non-empty cell.
 -/
 import Emboss.Lemmas.FmtRetokCells
+import Emboss.Lemmas.FmtPasses
 namespace Emboss.FmtTok
 open Emboss.Tok Emboss.Generated
 
@@ -174,5 +175,137 @@ theorem columnize_header_lineToks (blocks : List Fmt.Block) (iw ic : Nat) (b : F
     subst hk
     rw [h1]
     simpa [Fmt.spaces] using h3
+
+/-! ### The global passes only add rows without columns and change indentation -/
+
+theorem mem_stripEmptyRows {l : List Fmt.Row} {r : Fmt.Row} (h : r ∈ Fmt.stripEmptyRows l) : r ∈ l := by
+  unfold Fmt.stripEmptyRows at h
+  rw [List.mem_reverse] at h
+  have h1 := (List.dropWhile_sublist (fun r : Fmt.Row => r.columns.isEmpty)).subset h
+  rw [List.mem_reverse] at h1
+  exact (List.dropWhile_sublist _).subset h1
+
+theorem mem_intersperseAux (sep : List Fmt.Row) : ∀ (secs : List (List Fmt.Row)) (acc : List Fmt.Row)
+    (r : Fmt.Row), r ∈ Fmt.intersperseAux sep acc secs → r ∈ acc ∨ r ∈ sep ∨ ∃ s ∈ secs, r ∈ s := by
+  intro secs
+  induction secs with
+  | nil => intro acc r h; exact Or.inl h
+  | cons s rest ih =>
+    intro acc r h
+    simp only [Fmt.intersperseAux] at h
+    split at h
+    · rcases ih _ r h with h | h | ⟨s', hs', hr⟩
+      · exact Or.inl h
+      · exact Or.inr (Or.inl h)
+      · exact Or.inr (Or.inr ⟨s', by simp [hs'], hr⟩)
+    · split at h
+      · rcases ih _ r h with h | h | ⟨s', hs', hr⟩
+        · rcases List.mem_append.mp h with h | h
+          · exact Or.inl h
+          · exact Or.inr (Or.inr ⟨s, by simp, h⟩)
+        · exact Or.inr (Or.inl h)
+        · exact Or.inr (Or.inr ⟨s', by simp [hs'], hr⟩)
+      · rcases ih _ r h with h | h | ⟨s', hs', hr⟩
+        · rcases List.mem_append.mp h with h | h
+          · rcases List.mem_append.mp h with h | h
+            · exact Or.inl h
+            · exact Or.inr (Or.inl h)
+          · exact Or.inr (Or.inr ⟨s, by simp, h⟩)
+        · exact Or.inr (Or.inl h)
+        · exact Or.inr (Or.inr ⟨s', by simp [hs'], hr⟩)
+
+theorem mem_intersperse {sep : List Fmt.Row} {secs : List (List Fmt.Row)} {r : Fmt.Row}
+    (h : r ∈ Fmt.intersperse sep secs) : r ∈ sep ∨ ∃ s ∈ secs, r ∈ s := by
+  rcases mem_intersperseAux sep secs [] r h with h | h
+  · cases h
+  · exact h
+
+theorem mem_addBlankRowsAux : ∀ (l : List Fmt.Row) (p : Nat) (b : Bool) (r : Fmt.Row),
+    r ∈ Fmt.addBlankRowsAux p b l → r.columns = [] ∨ r ∈ l := by
+  intro l
+  induction l with
+  | nil => intro p b r h; cases h
+  | cons x rest ih =>
+    intro p b r h
+    unfold Fmt.addBlankRowsAux at h
+    simp only [] at h
+    split at h
+    · rcases List.mem_cons.mp h with rfl | h
+      · exact Or.inl rfl
+      · rcases List.mem_cons.mp h with rfl | h
+        · exact Or.inr (by simp)
+        · rcases ih _ _ r h with h | h
+          · exact Or.inl h
+          · exact Or.inr (by simp [h])
+    · rcases List.mem_cons.mp h with rfl | h
+      · exact Or.inr (by simp)
+      · rcases ih _ _ r h with h | h
+        · exact Or.inl h
+        · exact Or.inr (by simp [h])
+
+/-- Every row `_module` renders has no columns (a separator, a blank) or the columns of a
+row one of the module's parts delivered. -/
+theorem moduleRows_columns (c d i a : List Fmt.Row) (ty : List (List Fmt.Row)) :
+    ∀ r ∈ moduleRows c d i a ty, r.columns = [] ∨
+      ∃ r' ∈ c ++ d ++ i ++ a ++ ty.flatten, r'.columns = r.columns := by
+  intro r hr
+  simp only [moduleRows, Fmt.addBlankRowsOnDedent] at hr
+  rcases mem_addBlankRowsAux _ _ _ r hr with h | h
+  · exact Or.inl h
+  · have hc : r.columns ∈ (Fmt.indentBlanksAndComments _).map (·.columns) := List.mem_map_of_mem h
+    rw [Fmt.indentBlanksAndComments_columns] at hc
+    obtain ⟨r1, hr1, hcols⟩ := List.mem_map.mp hc
+    rcases mem_intersperse hr1 with h | ⟨s, hs, hrs⟩
+    · left
+      rw [← hcols]
+      simp only [List.mem_cons, List.not_mem_nil, or_false] at h
+      rcases h with rfl | rfl <;> rfl
+    · rcases List.mem_cons.mp hs with rfl | hs
+      · rcases mem_intersperse hrs with h | ⟨s', hs', hrs'⟩
+        · left
+          rw [← hcols]
+          simp only [List.mem_cons, List.not_mem_nil, or_false] at h
+          rw [h]
+        · right
+          refine ⟨r1, ?_, hcols⟩
+          simp only [List.mem_cons, List.not_mem_nil, or_false] at hs'
+          simp only [List.mem_append]
+          rcases hs' with rfl | rfl | rfl | rfl
+          · exact Or.inl (Or.inl (Or.inl (Or.inl (mem_stripEmptyRows hrs'))))
+          · exact Or.inl (Or.inl (Or.inl (Or.inr hrs')))
+          · exact Or.inl (Or.inl (Or.inr hrs'))
+          · exact Or.inl (Or.inr hrs')
+      · right
+        exact ⟨r1, List.mem_append.mpr (Or.inr (List.mem_flatten.mpr ⟨s, hs, hrs⟩)), hcols⟩
+
+theorem rowText_congr {r r' : Fmt.Row} (h : r'.columns = r.columns) : rowText r' = rowText r := by
+  simp only [rowText, h]
+
+/-- `tokenize_renderRows` with the hypothesis on the rows the module's parts deliver: `lv`
+assigns leaves to column lists. -/
+theorem tokenize_moduleRows (iw : Nat) (hiw : 0 < iw) (c d i a : List Fmt.Row) (ty : List (List Fmt.Row))
+    (lv : List Fmt.Str → List Leaf) (hnil : lv [] = [])
+    (hin : ∀ r ∈ c ++ d ++ i ++ a ++ ty.flatten, r.columns.length < 2 ∧ LineToks (rowText r) (lv r.columns))
+    (E : List Leaf)
+    (hE : expectLeaves iw 0 [] ((moduleRows c d i a ty).map (fun r => (r.indent, lv r.columns))) = some E) :
+    ∃ text toks, Fmt.Handler.run iw .module [.rows c, .rows d, .rows i, .rows a, .sections ty] =
+        some (.str text) ∧
+      tokenize tokTable.pats text = .ok toks ∧ toks.map leafOf = E := by
+  have hrows : ∀ x ∈ (moduleRows c d i a ty).map (fun r => (r, lv r.columns)),
+      x.1.columns.length < 2 ∧ LineToks (rowText x.1) x.2 := by
+    intro x hx
+    obtain ⟨r, hr, rfl⟩ := List.mem_map.mp hx
+    rcases moduleRows_columns c d i a ty r hr with h | ⟨r', hr', hcols⟩
+    · simp only [h, List.length_nil, hnil, rowText, List.flatten_nil]
+      exact ⟨by decide, LineToks.nil⟩
+    · have := hin r' hr'
+      rw [hcols, rowText_congr hcols] at this
+      exact this
+  obtain ⟨text, toks, h1, h2, h3⟩ := tokenize_renderRows iw hiw _ hrows E (by
+    simpa [List.map_map, Function.comp_def] using hE)
+  refine ⟨text, toks, ?_, h2, h3⟩
+  rw [hModule_eq]
+  simp only [List.map_map, Function.comp_def, List.map_id'] at h1
+  rw [h1]; rfl
 
 end Emboss.FmtTok
